@@ -15,6 +15,8 @@ var (
 	VerifGetProcessedSnapshotRecord = getProcessedSnapshotRecord
 	// VerifIsCompleteSnapshotImage is isCompleteSnapshotImage.
 	VerifIsCompleteSnapshotImage = isCompleteSnapshotImage
+	// VerifHasAllExternalFiles is hasAllExternalFiles.
+	VerifHasAllExternalFiles = hasAllExternalFiles
 	// VerifGetSnapshotFilepath is getSnapshotFilepath.
 	VerifGetSnapshotFilepath = getSnapshotFilepath
 	// VerifGetSnapshotRecord is getSnapshotRecord.
